@@ -90,6 +90,22 @@ def expected_trans(f):
             (True, True): 'NestedGraphTransition'}[(n, g)], n, False, g
 
 
+def sig_compatible(b, p):
+    """Python twin of `Gen.sigCompatible` (Props/C09Tables.lean)"""
+    bn = [x for x in b if x[2] == 0]
+    pn = []
+    for x in p:
+        if x[2] != 0:
+            break
+        pn.append(x)
+    for x, y in zip(bn, pn):
+        if y[0] != x[0] or not (y[1] == x[1] or x[1] == ''):
+            return False
+    if len(bn) > len(pn) and not (any(x[2] == 1 for x in p) and any(x[2] == 2 for x in p)):
+        return False
+    return all(x[2] == 0 or any(y[2] == x[2] for y in p) for x in b)
+
+
 def table_failures(tab=None):
     """[(what, case, details)] — every way the live classes break C09_factory_exact / C09_cls_triples /
     C09_ctor_compatible; the case names the feature tuple / class"""
@@ -134,6 +150,17 @@ def table_failures(tab=None):
         if r['ctor'][:len(mparams)] != mparams or r['ctor'][-1:] != [('**kwargs', '')]:
             diff = [(a, b) for a, b in zip(mparams, r['ctor']) if a != b][:3]
             out.append(('constructor-differs-from-Machine', case, {'first_differences': diff}))
+    for r in tab['overrides']:
+        if not sig_compatible(r['base_params'], r['params']):
+            out.append(('override-changes-the-parameters-of-the-base-method',
+                        {'table': 'overrides', 'class': r['owner'], 'method': r['method'], 'base': r['base']},
+                        {'used_by': r['used_by'], 'base_parameters': [list(x) for x in r['base_params']],
+                         'parameters': [list(x) for x in r['params']]}))
+    have = set((r['owner'], r['method']) for r in tab['overrides'])
+    for need in [(o, 'add_transition') for o in ('GraphMachine', 'MarkupMachine', 'HierarchicalMachine')] + \
+            [(o, 'add_model') for o in ('GraphMachine', 'LockedMachine', 'HierarchicalMachine', 'AsyncMachine')]:
+        if need not in have:
+            out.append(('override-table-misses-a-known-override', {'table': 'overrides', 'class': need[0], 'method': need[1]}, {}))
     return out
 
 
@@ -193,6 +220,7 @@ class Run9(flat.FlatRun):
         self.const = getattr(desc, 'const', None) or {}
         self.items = []
         self.exc_names = []
+        self.reads = []
         self.counts = {}
         self.next_tag = 0
         self.bad = []
@@ -206,6 +234,16 @@ class Run9(flat.FlatRun):
         self.machine = self.build(kwargs or {})
 
     # -- construction ------------------------------------------------------------------------
+    def transition_defs(self):
+        """`trans_form` 1: every transition in LIST form, all eight entries in the positional order of
+        `Machine.add_transition` (trigger, source, dest, conditions, unless, before, after, prepare) — `add_transitions`
+        expands a list with `add_transition(*entry)`; 0: dictionaries (keyword calls)"""
+        defs = flat.FlatRun.transition_defs(self)
+        if getattr(self.d, 'trans_form', 0) != 1:
+            return defs
+        return [[t['trigger'], t['source'], t['dest'], t['conditions'], t['unless'], t['before'], t['after'], t['prepare']]
+                for t in defs]
+
     def build(self, extra):
         """the description's `build_mode` (0: everything through the constructor; 1: transitions added afterwards with
         add_transition, models attached; 2: all states but the initial one added afterwards with add_states, then the
@@ -213,7 +251,7 @@ class Run9(flat.FlatRun):
         d = self.d
         mode, selfm = getattr(d, 'build_mode', 0), getattr(d, 'self_model', False)
         if not mode and not selfm:
-            return flat.FlatRun.build(self, extra)
+            return flat.FlatRun.build(self, extra)      # (uses self.transition_defs())
         sd, td = self.state_defs(), self.transition_defs()
         first = sd if mode != 2 else [x for x in sd if x['name'] == sname(d.initial)]
         rest = [x for x in sd if x not in first]
@@ -237,7 +275,10 @@ class Run9(flat.FlatRun):
             mach.add_states(rest)
         if mode:
             for t in td:
-                mach.add_transition(**t)
+                if isinstance(t, list):
+                    mach.add_transition(*t)       # positional call
+                else:
+                    mach.add_transition(**t)
         return mach
 
     # -- recording ---------------------------------------------------------------------------
@@ -382,6 +423,47 @@ class Run9(flat.FlatRun):
         self.items.append(('ret', tag, int(bool(r))))
         return r
 
+    def read_probe(self):
+        """read-only API calls between two commands of the history (the description asks for them with `reads`): for
+        every registered model its state, the machine's view of it, the state checks `is_<state>()`, and the machine's
+        `get_triggers` / `get_transitions` answers.  None of them runs a callback; their answers are compared across
+        classes, and so is everything that follows them (a reader that leaves something behind shows up later)."""
+        if not getattr(self.d, 'reads', False):
+            return
+        mach = self.machine
+        rec = []
+
+        def ask(label, fn):
+            try:
+                rec.append((label, fn()))
+            except BaseException as e:     # noqa
+                if isinstance(e, (common.MachineryError, KeyboardInterrupt)):
+                    raise
+                rec.append((label, 'raises ' + type(e).__name__))
+        for mo in list(mach.models):
+            mid = mo._mid
+            ask('state m%d' % mid, lambda: str(getattr(mo, 'state', None)))
+            ask('get_model_state m%d' % mid, lambda: str(mach.get_model_state(mo).name))
+            ask('is_<state> m%d' % mid,
+                lambda: [bool(getattr(mo, 'is_' + sname(st['name']))()) for st in self.d.states])
+            ask('get_triggers m%d' % mid, lambda: sorted(mach.get_triggers(getattr(mo, 'state'))))
+        for st in self.d.states:
+            ask('get_triggers ' + sname(st['name']), lambda: sorted(mach.get_triggers(sname(st['name']))))
+        for ev, _ts in self.d.events:
+            ask('get_transitions ' + ename(ev), lambda: sorted(
+                (str(t.source), str(t.dest)) for t in mach.get_transitions(ename(ev))))
+        self.reads.append(rec)
+
+    def _run_sync(self):
+        for c in self.d.history:
+            try:
+                self.do_cmd(c)
+            except BaseException as e:      # the caller of the API catches whatever escapes
+                if isinstance(e, (common.MachineryError, KeyboardInterrupt)):
+                    raise
+            self.read_probe()
+        return self
+
     def _run_async(self):
         async def main():
             loop = asyncio.get_running_loop()
@@ -392,12 +474,13 @@ class Run9(flat.FlatRun):
                 except BaseException as e:     # the awaiting caller catches whatever escapes
                     if isinstance(e, (common.MachineryError, KeyboardInterrupt)):
                         raise
+                self.read_probe()
             self.leftover = len([t for t in asyncio.all_tasks() if t is not asyncio.current_task() and not t.done()])
         asyncio.run(main())
         return self
 
     def run(self, watchdog=False):
-        target = self._run_async if self.is_async else functools.partial(flat.FlatRun.run, self)
+        target = self._run_async if self.is_async else self._run_sync
         if not watchdog:
             target()
             return self
@@ -462,6 +545,12 @@ STREAMS = {
     # Machine's default: the machine is its own model
     'selfmodel': dict(knobs=_k(max_models=1, p_raise=0.05, p_cmds=0.3, p_on_exception=0.3, p_queued=0.3, max_history=8),
                       steer='steer_self', quick=(8, 10), thorough=(16, 80)),
+    # read-only API between the events: may_<event> / may_trigger polls in the history (they run prepare callbacks and
+    # conditions), get_triggers / get_transitions / is_<state> / get_model_state reads after every command; compared are
+    # their answers AND everything that follows them
+    'polls': dict(knobs=_k(max_models=2, p_raise=0.04, p_cmds=0.15, p_on_exception=0.3, p_queued=0.3, max_history=10,
+                           hist_kinds=(TRIGGER, TRIGGER, MAY, MAY), cmd_kinds=(TRIGGER, MAY)),
+                  steer='steer_reads', quick=(16, 8), thorough=(32, 60)),
     # a removed model keeps its triggers (Machine.remove_model): remove_model(m), add_model(another one), then m fires
     # events — the per-model side tables of the mixins (graphs, lock contexts, queues) must not get in the way
     'orphan': dict(knobs=_k(max_models=3, max_states=4, p_raise=0.03, p_cmds=0.15, p_on_exception=0.2, p_queued=0.3,
@@ -517,6 +606,11 @@ def steer_orphan(d, rng):
     return d
 
 
+def steer_reads(d, rng):
+    d.reads = True
+    return d
+
+
 def steer_grow(d, rng):
     d.build_mode = rng.choice((1, 2))
     return d
@@ -550,6 +644,7 @@ def gen(stream, rng):
     """-> list of descriptions (the crash stream yields several variants of one base)"""
     cf = STREAMS[stream]
     base = raw(flat.gen_flat(rng, cf['knobs']()))
+    base.trans_form = rng.choice((0, 1))       # dictionaries / eight-entry lists (positional expansion)
     if cf.get('steer'):
         base = globals()[cf['steer']](base, rng)
     out = [base]
@@ -619,7 +714,7 @@ def observe(d, run, is_async):
     """what the statement compares: callback sequence (slot, callback, model, arguments, state seen), API results'
     truth values, exception kinds and type names, final model list and states"""
     items = aflat.obs(d, run.items) if is_async else list(run.items)
-    return items, run.final(), sorted(run.exc_names)
+    return items, run.final(), sorted(run.exc_names), run.reads
 
 
 def reference(d, cls=None):
@@ -641,12 +736,17 @@ def compare(d, ref, run, name):
         return {'what': 'arguments', 'class': name, 'bad': run.bad[:3]}
     if is_async and run.leftover:
         return {'what': 'callbacks-outlive-their-trigger', 'class': name, 'tasks': run.leftover}
-    oi, of, oe = observe(d, ref, is_async)
-    ci, cf, ce = observe(d, run, is_async)
-    if oi == ci and of == cf and oe == ce:
+    oi, of, oe, orr = observe(d, ref, is_async)
+    ci, cf, ce, crr = observe(d, run, is_async)
+    if oi == ci and of == cf and oe == ce and orr == crr:
         return None
     k = first_diff(oi, ci)
-    return {'what': 'differs-from-Machine', 'class': name, 'first_difference_at': k,
+    reads = {}
+    if orr != crr:
+        j = first_diff(orr, crr)
+        a, b = (orr[j] if j < len(orr) else []), (crr[j] if j < len(crr) else [])
+        reads = {'after_command': j, 'Machine': [x for x in a if x not in b][:4], name: [x for x in b if x not in a][:4]}
+    return {'what': 'differs-from-Machine', 'class': name, 'first_difference_at': k, 'read_only_answers': reads,
             'Machine': [show(i) for i in oi[max(0, k - 4):k + 4]],
             name: [show(i) for i in ci[max(0, k - 4):k + 4]],
             'Machine_final': [of[0], sorted(of[1].items())], name + '_final': [cf[0], sorted(cf[1].items())],
@@ -792,7 +892,7 @@ def shrink_steps(case):
 class C09(runner.Check):
     prop = 'C09'
     level = 'proof'
-    theorems = ('TM.C09_factory_exact', 'TM.C09_cls_triples', 'TM.C09_ctor_compatible',
+    theorems = ('TM.C09_factory_exact', 'TM.C09_cls_triples', 'TM.C09_ctor_compatible', 'TM.C09_override_signatures',
                 'TM.C09_graph_noninterference', 'TM.C09_markup_noninterference', 'TM.C09_side_table_write_only',
                 'TM.Locked.C09_locked_single_thread', 'TM.Locked.C09_locks_once_default',
                 'TM.C09_async_flat', 'TM.C09_async_graph_flat',
@@ -813,8 +913,10 @@ class C09(runner.Check):
              "over a table regenerated from the LIVE classes before every build, by decide: the factory returns for each "
              "of the 12 supported feature tuples a class whose issubclass flags are the tuple and raises ValueError for "
              "the 4 locked+asyncio tuples (C09_factory_exact), every class resolves state_cls/event_cls/transition_cls "
-             "to the family its composition needs (C09_cls_triples) and takes Machine's constructor parameters with "
-             "Machine's defaults (C09_ctor_compatible). Tie to the code = the property's monitor: the C01/C04/C05/membership "
+             "to the family its composition needs (C09_cls_triples), takes Machine's constructor parameters with "
+             "Machine's defaults (C09_ctor_compatible), and every function that replaces a method of Machine / State / Event / "
+             "Transition anywhere in an MRO keeps the base method's parameter order and defaults "
+             "(C09_override_signatures). Tie to the code = the property's monitor: the C01/C04/C05/membership "
              "generators run on Machine and on the 11 other classes (by name and through the factory, Mermaid backend) and "
              "model states, result truth values, exception types and callback sequences are compared pairwise.",
         note="Trusted: Lean kernel; hand-written models Model/Core.lean, Model/Side.lean (hook placement read off diagrams.py / "
@@ -833,10 +935,13 @@ class C09(runner.Check):
             '(callbacks that trigger events on the same / other / unregistered models, remove models, raise; queued and '
             'unqueued), a membership stream (add_model / remove_model / dispatch from callers and callbacks), the same '
             'configurations built incrementally (add_states / add_transition after the models are attached), the machine as '
-            'its own model, a removed model that keeps firing events after another model was added, and an unqueued '
+            'its own model, read-only API between the events (may_<event> / may_trigger polls in histories and callbacks; '
+            'get_triggers / get_transitions / is_<state> / get_model_state reads after every command), a removed model that '
+            'keeps firing events after another model was added, and an unqueued '
             're-trigger stream on one model (+ a malformed stream with unregistered destinations, model '
             'correspondence only); every description runs on Machine and on the other 11 classes, each reached by name or '
-            'through MachineFactory.get_predefined (coin flip); async classes: callbacks independently plain / coroutine / suspending coroutine; a case = '
+            'through MachineFactory.get_predefined (coin flip); transitions defined as dictionaries or as eight-entry lists '
+            '(positional expansion), coin flip per description; async classes: callbacks independently plain / coroutine / suspending coroutine; a case = '
             '(description, class); non-trivial = the reference run executes at least one transition; distinct = different '
             'protocol encoding or class')
     trusted = ('hand-written models lean/Model/Core.lean (tied to Machine by trace equality on every generated case), '
@@ -910,6 +1015,7 @@ class C09(runner.Check):
         tf = table_failures()
         ex.evaluations += 16 + 12
         ex.stats['table'] = {'factory_rows': 16, 'class_rows': 12, 'failures': len(tf),
+                             'override_rows': len(extract_tables.live_table()['overrides']),
                              'regenerated': getattr(self, 'table_status', 'n/a')}
         for what, case, details in tf:
             ex.failures.append(Failure('monitor', what, case, details, signature='C09.table.' + what))
